@@ -269,7 +269,21 @@ def multi():
     L += [F('UQ_inv_M', [q, p_], lambda a, b: out(uq2(a, b).inv()), '2-valued UnitQuaternion.inv()'),
           F('Q_conj_M', [q, p_], lambda a, b: out(q2(a, b).conj()), '2-valued Quaternion.conj()'),
           F('Q_norm_M', [q, p_], lambda a, b: tuple(q2(a, b).norm()), '2-valued Quaternion.norm()'),
-          F('Q_add_M1', [q, p_, P('r', (4,))], lambda a, b, c: out(q2(a, b) + Quaternion(c)), '2-valued Quaternion + 1-valued')]
+          F('Q_add_M1', [q, p_, P('r', (4,))], lambda a, b, c: out(q2(a, b) + Quaternion(c)), '2-valued Quaternion + 1-valued'),
+          F('Q_pow2_M', [q, p_], lambda a, b: out(q2(a, b) ** 2), '2-valued Quaternion ** 2'),
+          F('Q_pow3_M', [q, p_], lambda a, b: out(q2(a, b) ** 3), '2-valued Quaternion ** 3'),
+          F('Q_pow_m2_M', [q, p_], lambda a, b: out(q2(a, b) ** -2), '2-valued Quaternion ** -2'),
+          F('UQ_pow2_M', [q, p_], lambda a, b: out(uq2(a, b) ** 2), '2-valued UnitQuaternion ** 2'),
+          F('Q_mul_M1', [q, p_, P('r', (4,))], lambda a, b, c: out(q2(a, b) * Quaternion(c)), '2-valued Quaternion * 1-valued'),
+          F('Q_mul_1M', [q, p_, P('r', (4,))], lambda a, b, c: out(Quaternion(a) * q2(b, c)), '1-valued Quaternion * 2-valued'),
+          F('Q_mul_MM', [q, p_, P('r', (4,)), P('s', (4,))], lambda a, b, c, d: out(q2(a, b) * q2(c, d)), '2-valued Quaternion * 2-valued'),
+          F('UQ_eq_1M', [q, p_, P('r', (4,))], lambda a, b, c: tuple(_uq(a) == uq2(b, c)), '1-valued UnitQuaternion == 2-valued'),
+          F('UQ_ne_1M', [q, p_, P('r', (4,))], lambda a, b, c: tuple(_uq(a) != uq2(b, c)), '1-valued UnitQuaternion != 2-valued'),
+          F('UQ_eq_M1', [q, p_, P('r', (4,))], lambda a, b, c: tuple(uq2(a, b) == _uq(c)), '2-valued UnitQuaternion == 1-valued'),
+          F('UQ_ne_M1', [q, p_, P('r', (4,))], lambda a, b, c: tuple(uq2(a, b) != _uq(c)), '2-valued UnitQuaternion != 1-valued'),
+          F('UQ_mul_vec_M', [q, p_, P('v', (3,))], lambda a, b, v: uq2(a, b) * v, '2-valued UnitQuaternion * 3-vector'),
+          F('Q_inner_M', [q, p_, P('r', (4,))], lambda a, b, c: q2(a, b).inner(Quaternion(c)), '2-valued Quaternion.inner(1-valued)'),
+          ]
     return L
 
 def groups():
